@@ -719,12 +719,13 @@ mod verif_cex {
 
     #[test]
     fn cex_Dc() {
+        // No ordering precondition: the diff ops do not arrive in the order of their positions in the
+        // new line, so `new` may lie anywhere (and may be empty, in which case nothing changes).
         const MAX: usize = 9;
         let mut cases = 0u64;
         for old in strict_wf_lists(MAX) {
-            let min_start = old.last().map_or(0, |r| r.start);
-            for s in min_start..MAX {
-                for e in (s + 1)..=MAX {
+            for s in 0..=MAX {
+                for e in s..=MAX {
                     let mut ranges = old.clone();
                     push_or_merge_range(&mut ranges, s..e);
                     cases += 1;
@@ -732,7 +733,9 @@ mod verif_cex {
                     for c in s..e {
                         union[c] = true;
                     }
-                    // The maximal runs of the union are the unique well-formed representation.
+                    // The maximal runs of the union are the unique sorted, non-empty, non-touching
+                    // representation - except that a touching new range glues its neighbours:
+                    // [0,2) + new [2,4) is one run, which the column set already says.
                     let mut expected: Vec<Range<usize>> = Vec::new();
                     let mut c = 0;
                     while c <= MAX {
@@ -746,10 +749,15 @@ mod verif_cex {
                             c += 1;
                         }
                     }
+                    if s == e {
+                        // An EMPTY new range adds no column: the list must be unchanged (it may touch
+                        // two neighbours at a point, but adds nothing between them).
+                        expected = old.clone();
+                    }
                     if ranges != expected {
                         cex_fail(
                             "Dc",
-                            "push_or_merge_range: result must be the sorted, non-empty, non-touching ranges whose union is old-union-new",
+                            "push_or_merge_range: result must be the sorted, non-empty, non-touching ranges whose union is old-union-new (an empty new range changes nothing)",
                             json!({"ranges_before": ranges_json(&old), "new_range": [s, e]}),
                             ranges_json(&expected),
                             ranges_json(&ranges),
@@ -758,7 +766,7 @@ mod verif_cex {
                 }
             }
         }
-        cex_none("Dc", cases, "every sorted non-touching range list over columns 0..=9 x every new range [s,e) with s >= start of the last range, e <= 9");
+        cex_none("Dc", cases, "every sorted non-touching range list over columns 0..=9 x every new range [s,e) with 0 <= s <= e <= 9 (any position, empty ranges included)");
     }
 
     fn is_subsequence(needle: &[char], hay: &[char]) -> bool {
@@ -769,6 +777,44 @@ mod verif_cex {
             }
         }
         i == needle.len()
+    }
+
+    fn check_dd(old: &str, new: &str, cases: &mut u64) {
+        let ranges = line_diff(old, new);
+        *cases += 1;
+        let input = json!({"old_line": old, "new_line": new});
+        // (a) non-empty, sorted, strictly apart (r[i].end < r[i+1].start): the precondition of B1/B2.
+        if !is_strictly_wf(&ranges) {
+            cex_fail("Dd", "line_diff: ranges must be non-empty, sorted and strictly apart (r[i].end < r[i+1].start)", input, json!("well-formed ranges"), ranges_json(&ranges));
+        }
+        // (b) C02: a modified line reports changed ranges unless nothing changed.
+        if ranges.is_empty() != (old == new) {
+            cex_fail("Dd", "line_diff: result is empty iff the two lines are equal", input, json!({"empty": old == new}), ranges_json(&ranges));
+        }
+        // (c) byte columns of the new line: every bound is a char boundary of `new`; the only range
+        //     allowed to stick out is the one-byte marker of a deletion when `new` is empty.
+        let marker_on_empty = new.is_empty() && ranges == vec![0..1];
+        if !marker_on_empty && ranges.iter().any(|r| r.end > new.len() || !new.is_char_boundary(r.start) || !new.is_char_boundary(r.end)) {
+            cex_fail("Dd", "line_diff: ranges must be byte ranges on char boundaries within the new line", input, json!({"new_line_len_bytes": new.len()}), ranges_json(&ranges));
+        }
+        // (d) soundness: characters of the new line outside every range are "unchanged", so - in
+        //     order - they must all come from the old line. In particular a character that does
+        //     not occur in the old line at all is always covered.
+        let unchanged: Vec<char> = new
+            .char_indices()
+            .filter(|(i, _)| !ranges.iter().any(|r| r.start <= *i && *i < r.end))
+            .map(|(_, c)| c)
+            .collect();
+        let old_chars: Vec<char> = old.chars().collect();
+        if !is_subsequence(&unchanged, &old_chars) {
+            cex_fail(
+                "Dd",
+                "line_diff: the characters of the new line not covered by any range must form a subsequence of the old line",
+                input,
+                json!({"uncovered_text_must_be_subsequence_of": old}),
+                json!({"ranges": ranges_json(&ranges), "uncovered_text": unchanged.iter().collect::<String>()}),
+            );
+        }
     }
 
     #[test]
@@ -790,46 +836,43 @@ mod verif_cex {
             }
             out
         }
-        let pool = strings(&['a', 'b', ' '], 4);
         let mut cases = 0u64;
+        // Regression inputs (found by this harness on the tree before dc11103 / f9a09af).
+        for (old, new) in [
+            ("abbab", "bbbbbba"),
+            ("cacb", "abbaabbb"),
+            ("accacbc", "aabbbabbc"),
+            ("abab", "bb b"),
+            ("caabbbbcac", "bcbccccc"),
+            ("cababc", "accaacaccc"),
+            ("abbccacb", "bbbbbb"),
+            ("# abab", "# bbbb<block keep-sorted>bcc"),
+            ("\u{e9}a", "\u{e9}b"),
+            ("a\u{e9}", "\u{e9}"),
+            ("\u{e9}\u{e9}x", "x\u{e9}"),
+        ] {
+            check_dd(old, new, &mut cases);
+        }
+        // Exhaustive: every ordered pair of strings of length 0..=5 over {a, b, e-acute (2 bytes)}.
+        let pool = strings(&['a', 'b', '\u{e9}'], 5);
         for old in &pool {
             for new in &pool {
-                let ranges = line_diff(old, new);
-                cases += 1;
-                let input = json!({"old_line": old, "new_line": new});
-                if !is_strictly_wf(&ranges) {
-                    cex_fail("Dd", "line_diff: ranges must be non-empty, sorted and non-touching", input, json!("well-formed ranges"), ranges_json(&ranges));
-                }
-                if ranges.is_empty() != (old == new) {
-                    cex_fail("Dd", "line_diff: result is empty iff the two lines are equal", input, json!({"empty": old == new}), ranges_json(&ranges));
-                }
-                let limit = new.len().max(1);
-                if ranges.iter().any(|r| r.end > limit) {
-                    cex_fail("Dd", "line_diff: ranges must lie within the new line (0..max(len,1))", input, json!({"max_end": limit}), ranges_json(&ranges));
-                }
-                // Characters of the new line outside every range are "unchanged": in order, they must all come from the old line.
-                let unchanged: Vec<char> = new
-                    .chars()
-                    .enumerate()
-                    .filter(|(i, _)| !ranges.iter().any(|r| r.start <= *i && *i < r.end))
-                    .map(|(_, c)| c)
-                    .collect();
-                let old_chars: Vec<char> = old.chars().collect();
-                if !is_subsequence(&unchanged, &old_chars) {
-                    cex_fail(
-                        "Dd",
-                        "line_diff: the characters of the new line not covered by any range must form a subsequence of the old line",
-                        input,
-                        json!({"uncovered_text_must_be_subsequence_of": old}),
-                        json!({"ranges": ranges_json(&ranges), "uncovered_text": unchanged.iter().collect::<String>()}),
-                    );
-                }
-                // If nothing of the new line is marked, the new line is the old line.
-                if unchanged.len() == new.chars().count() && old != new {
-                    cex_fail("Dd", "line_diff: a differing pair must mark at least one character", input, json!("non-empty"), ranges_json(&ranges));
-                }
+                check_dd(old, new, &mut cases);
             }
         }
-        cex_none("Dd", cases, "every ordered pair of ASCII strings of length 0..=4 over {a,b,space}; checks: well-formed, empty iff equal, within the new line, uncovered characters form a subsequence of the old line (byte == char index: ASCII only)");
+        // Random longer lines over {a, b, c, space, e-acute, U+10348 (4 bytes)}, seeded from VERIF_SEED.
+        let mut rng = Lcg::from_env();
+        let alphabet = ['a', 'b', 'c', ' ', '\u{e9}', '\u{10348}'];
+        for _ in 0..60000 {
+            let mut make = |r: &mut Lcg| -> String {
+                let len = r.next(13) as usize;
+                let letters = 2 + r.next(5);
+                (0..len).map(|_| alphabet[r.next(letters) as usize]).collect()
+            };
+            let old = make(&mut rng);
+            let new = make(&mut rng);
+            check_dd(&old, &new, &mut cases);
+        }
+        cex_none("Dd", cases, "11 regression pairs; every ordered pair of strings of length 0..=5 over {a,b,U+00E9}; 60000 random pairs of length 0..=12 over {a,b,c,space,U+00E9,U+10348}; checks: non-empty/sorted/strictly apart, empty iff equal, byte ranges on char boundaries within the new line, uncovered characters form a subsequence of the old line");
     }
 }
